@@ -18,7 +18,10 @@ ENGINES = [
                         "Fourier-Motzkin), constant folding of module data, "
                         "bit-layout provenance, order-type evaluation, "
                         "effect/mutation analysis, role (dimension) "
-                        "inference. A rule that cannot read a construct has "
+                        "inference, name-based argument linking (NAMELINK), "
+                        "truth-test defaults against a parameter's known "
+                        "domain (FALSY), loop-local variables read on a "
+                        "pass that did not set them (STALE). A rule that cannot read a construct has "
                         "no verdict (UNDECIDED) instead of raising an alarm"),
 ]
 
@@ -609,6 +612,67 @@ CHECKS["C19"]["text"] += (" spinn5_eth_coords leaves none of its loops "
 CHECKS["C20"]["text"] += (" The struct file's field-code table keeps width "
                           "and signedness (C14-R6, re-run).")
 CHECKS["C12"]["text"] += (" Every target core reaches add_core (R4).")
+# round 8
+_GENERIC8 = (" In the same packages: no default chosen by a truth test "
+             "replaces a falsy value the parameter is known to take (FALSY), "
+             "no loop reads a variable of its own that the current pass may "
+             "not have set (STALE), no container holds one mutable object "
+             "under every key and is then changed through one entry.")
+for _k in ("C01", "C02", "C03", "C04", "C05", "C06", "C07", "C09", "C10",
+           "C12", "C14", "C17", "C18", "C20"):
+    CHECKS[_k]["text"] += _GENERIC8
+CHECKS["C01"]["text"] += (" The up-check examines every member of a merge "
+                          "(C04-R3, re-run); reserve_monitor adds a global "
+                          "reservation of core 0 unless one is already there "
+                          "(R2); the wrappers change none of their "
+                          "arguments in place (C17-R1).")
+CHECKS["C02"]["text"] += (" The annealer makes at least one swap attempt "
+                          "per temperature and the kernel's lookups have an "
+                          "entry for every vertex and chip (R2).")
+CHECKS["C03"]["text"] += (" The table of endpoint routes is only read while "
+                          "the nets are handled (R1); the vector walked from "
+                          "a chip is the shortest path from that chip on "
+                          "every pass (C11-R5, re-run).")
+CHECKS["C04"]["text"] += (" The up-check's member loop is left early only "
+                          "once the merge is given up (R3).")
+CHECKS["C05"]["text"] += (" The monitor reservation made by wrapper() is "
+                          "global (C01-R2, re-run).")
+CHECKS["C08"]["text"] += (" A field search below a node goes on to the next "
+                          "enabled child (R3).")
+CHECKS["C09"]["text"] += (" After every fill the map of unloaded cores is "
+                          "established anew before it is read again (R4); "
+                          "SCP argument words that are zero are written "
+                          "(C15-R3, re-run).")
+CHECKS["C11"]["text"] += (" The vector a router walks from a chip is the "
+                          "shortest path computed from that chip (R5).")
+CHECKS["C12"]["text"] += (" No selection of a node is left out by its "
+                          "position in the sorted selections (R4).")
+CHECKS["C13"]["text"] += (" The root's transfer functions are refused only "
+                          "once the allocation is freed (R5).")
+CHECKS["C14"]["text"] += (" In the enumerated form of the P2P decode, word "
+                          "k of a column of height h yields min(8, h - 8k) "
+                          "entries for every h in 1..255 (R2); "
+                          "place_and_route_wrapper does not leave the "
+                          "reservations of one probe in the caller's list "
+                          "(C17-R1, re-run).")
+CHECKS["C15"]["text"] += (" A packet constructed with a field value of 0 "
+                          "keeps that 0 (FALSY with the header-field "
+                          "domains, R1).")
+CHECKS["C16"]["text"] += (" The signed flag is read the same way (truth "
+                          "value / equality, not identity with True) by "
+                          "every statement of a constructor (R2).")
+CHECKS["C17"]["text"] += (" No loop draws from the caller's generator once "
+                          "per element of a set (R4); x += f() with f "
+                          "returning a list it made is an in-place change "
+                          "(R1).")
+CHECKS["C18"]["text"] += (" A BMP command for several boards goes to the "
+                          "first board the caller named (R5).")
+CHECKS["C19"]["text"] += (" spinn5_eth_coords lists no chip apart from its "
+                          "walk without comparing it with the bounds, and "
+                          "the controller's root chip is unknown until the "
+                          "machine reports it (R2).")
+CHECKS["C20"]["text"] += (" Numbers of a struct file are read in base 16 "
+                          "when written 0x..., else base 10 (R3).")
 for _k, _old, _new in _AMEND:
     assert _old in CHECKS[_k]["text"], (_k, _old)
     CHECKS[_k]["text"] = CHECKS[_k]["text"].replace(_old, _new, 1)
